@@ -502,6 +502,17 @@ pub fn run(ctx: &mut Ctx) {
             cases.push(EncCase { color, depth, w, h, pixels, filter: 5, compression: 1, path: (k % 2) as u8, stream_buf: 64, partition: vec![], sink: vec![], interlaced_flag: false });
         }
     }
+    // highly compressible images whose raw size lies just above a power-of-two size of the decoder's inflate buffer (see C01)
+    for (k, (w, h, color, depth, _)) in crate::props::c01::near_boundary_shapes(&mut rng, ctx.n(8, 40)).into_iter().enumerate() {
+        let mut r = rng.fork(8_000_000 + k as u64);
+        let mut img = Img::random(&mut r, color, depth, w, h);
+        let rb = img.row_bytes();
+        let keep = if k % 2 == 0 { 0 } else { r.usize(0, 3).min(h as usize) };
+        for b in img.pixels[keep * rb..].iter_mut() {
+            *b = 0;
+        }
+        cases.push(EncCase { color, depth, w, h, pixels: img.pixels, filter: *r.pick(&[0u8, 0, 5, 2]), compression: *r.pick(&[3u8, 8, 11, 1, 13, 16]), path: (k % 2) as u8, stream_buf: *r.pick(&[0usize, 4096]), partition: vec![], sink: vec![], interlaced_flag: false });
+    }
     let files: Vec<Result<Vec<u8>, String>> = cases.iter().map(encode).collect();
     let lines: Vec<String> = files.iter().map(|f| match f { Ok(f) => format!("c01 decode {}", hex(f)), Err(_) => "c01 skip".to_string() }).collect();
     let answers = model::ask(&lines);
